@@ -106,4 +106,334 @@ theorem handleTx_mono {s : St} {h : Int} {tx : TxIn} (hA : AddrOK s.accts.fin) (
   · obtain ⟨h1, h2, h3⟩ := deliver_failure hc
     exact ⟨fun a => by rw [h1 a]; exact Nat.le_refl _, h2 hA, h3⟩
 
+
+/-- success (any type): nonce matched and the sender's nonce grew by exactly one -/
+theorem deliver_success {s : St} {h : Int} {tx : TxIn} (hA : AddrOK s.accts.fin)
+    (hc : (handleTx s true h tx).2.code = 0) (ho : EvmNonceOK s tx) :
+    tx.nonce = nonceOf s tx.from_ ∧ nonceOf (handleTx s true h tx).1 tx.from_ = nonceOf s tx.from_ + 1 := by
+  by_cases hv : viaEvm tx (recvOf s tx)
+  · obtain ⟨h1, h2, _⟩ := deliver_success_evm hA hc hv ho; exact ⟨h1, h2⟩
+  · obtain ⟨h1, h2, _⟩ := deliver_success_native hA hc hv; exact ⟨h1, h2⟩
+
+/-! ### steps and runs -/
+
+theorem nonceOf_congr {s s' : St} (h : s'.accts.fin = s.accts.fin) (a : Hex) : nonceOf s' a = nonceOf s a := by
+  unfold nonceOf; rw [h]
+
+theorem deliverTx_ok_inv {s : St} {tx : TxIn} {o : TxOut} (h : (deliverTx s tx).2.tx = some o) (hc : o.code = 0) :
+    ∃ b, s.blk = some b ∧ (handleTx s true b.height tx).2.code = 0 := by
+  unfold deliverTx at h
+  split at h
+  · simp at h
+  · rename_i b hb
+    refine ⟨b, hb, ?_⟩
+    simp only at h
+    split at h
+    · simp at h; rw [h]; exact hc
+    · split at h <;> (simp at h; rw [h]; exact hc)
+
+/-- inside a block `deliverTx` leaves the block context in place -/
+theorem deliverTx_blk {s : St} {b : BlockCtx} (tx : TxIn) (hb : s.blk = some b) : (deliverTx s tx).1.blk ≠ none := by
+  have hfail : (handleTx s true b.height tx).2.code ≠ 0 → (handleTx s true b.height tx).1.blk = some b := by
+    intro hc
+    obtain ⟨l, e, _⟩ := handleTx_fail_shape hc
+    rw [e]; exact hb
+  unfold deliverTx; rw [hb]
+  simp only
+  split
+  · rename_i hp
+    have : (handleTx s true b.height tx).2.code ≠ 0 := fun c => hp (handleTx_ok_panic c)
+    rw [hfail this]; simp
+  · split
+    · simp
+    · rename_i hc; rw [hfail hc]; simp
+
+/-- the consensus view agrees with the last committed version on every nonce -/
+def NonceSync (s : St) : Prop := ∀ k : String, nonceOpt s.accts.fin[k]? = nonceOpt s.accts.committed[k]?
+
+/-- invariant of well-phased histories: between blocks (and whenever no block is open) the consensus
+    view carries exactly the committed nonces -/
+def PInv (p : Phase) (s : St) : Prop := AcctInv s ∧ ((p = .idle ∨ s.blk = none) → NonceSync s)
+
+theorem PInv_init (g : Genesis) : PInv .idle (initChain g) := by
+  refine ⟨AcctInv_init g, fun _ k => ?_⟩
+  obtain ⟨_, h2, h3⟩ := initChain_accts g
+  rw [h2 k]; unfold Led.committed; rw [h3]; simp [nonceOpt]
+
+/-- the phase invariant is kept by every operation the phase discipline allows (no oracle hypothesis) -/
+theorem PInv_next {p p' : Phase} {s : St} {op : Op} (hph : phaseStep p op = some p') (hP : PInv p s) :
+    PInv p' (step s op).1 := by
+  obtain ⟨hI, hS⟩ := hP
+  have hop : op.isInit = false := by cases op <;> cases p <;> simp_all [phaseStep, Op.isInit]
+  have hI' := AcctInv_step hI op hop
+  refine ⟨hI', ?_⟩
+  · -- nonce synchronisation
+    cases op with
+    | init g => simp [Op.isInit] at hop
+    | begin_ h =>
+      cases p <;> simp [phaseStep] at hph
+      intro _ k
+      show nonceOpt (beginBlock s h).1.accts.fin[k]? = nonceOpt (beginBlock s h).1.accts.committed[k]?
+      rw [beginBlock_accts]; exact hS (Or.inl rfl) k
+    | deliver tx =>
+      cases p <;> simp [phaseStep] at hph
+      subst hph
+      intro hc
+      cases hb : s.blk with
+      | none => show NonceSync (deliverTx s tx).1; rw [deliverTx_noblk tx hb]; exact hS (Or.inr hb)
+      | some b =>
+        rcases hc with hc | hc
+        · simp at hc
+        · exact absurd hc (deliverTx_blk tx hb)
+    | check tx =>
+      obtain ⟨h1, h2, h3⟩ := checkTx_accts s tx
+      have hpp : p' = p := by cases p <;> simp [phaseStep] at hph <;> exact hph.symm
+      intro hc k
+      show nonceOpt (checkTx s tx).1.accts.fin[k]? = nonceOpt (checkTx s tx).1.accts.committed[k]?
+      rw [h1, committed_of_hist h2]
+      refine hS ?_ k
+      rcases hc with hc | hc
+      · exact Or.inl (by rw [← hpp]; exact hc)
+      · exact Or.inr (by rw [← h3]; exact hc)
+    | end_ =>
+      cases p <;> simp [phaseStep] at hph
+      subst hph
+      obtain ⟨h1, h2, h3⟩ := endBlock_keep s
+      intro hc k
+      rcases hc with hc | hc
+      · simp at hc
+      · show nonceOpt (endBlock s).1.accts.fin[k]? = nonceOpt (endBlock s).1.accts.committed[k]?
+        rw [(h3 hI.1).2 k, committed_of_hist h1]
+        exact hS (Or.inr (by rw [← h2]; exact hc)) k
+    | commit =>
+      cases p <;> simp [phaseStep] at hph
+      intro _ k
+      show nonceOpt (commit s).1.accts.fin[k]? = nonceOpt (commit s).1.accts.committed[k]?
+      unfold commit
+      cases hb : s.blk with
+      | none => exact hS (Or.inr hb) k
+      | some b => simp only [Led.committed_commit]; rfl
+    | restart =>
+      intro _ k
+      show nonceOpt (restart s).accts.fin[k]? = nonceOpt (restart s).accts.committed[k]?
+      unfold restart; simp only [Led.reopen]; rfl
+
+/-- C04 `nonce_monotone`, per operation of a well-phased history -/
+theorem PInv_step {p p' : Phase} {s : St} {op : Op} (hph : phaseStep p op = some p') (hP : PInv p s)
+    (ho : OpOracleOK s op) :
+    PInv p' (step s op).1 ∧ ∀ a, nonceOf s a ≤ nonceOf (step s op).1 a := by
+  refine ⟨PInv_next hph hP, ?_⟩
+  obtain ⟨hI, hS⟩ := hP
+  have hop : op.isInit = false := by cases op <;> cases p <;> simp_all [phaseStep, Op.isInit]
+  · -- monotonicity
+    intro a
+    cases op with
+    | init g => simp [Op.isInit] at hop
+    | begin_ h =>
+      show nonceOf s a ≤ nonceOf (beginBlock s h).1 a
+      rw [nonceOf_congr (s := s) (s' := (beginBlock s h).1) (by rw [beginBlock_accts])]; exact Nat.le_refl _
+    | deliver tx =>
+      show nonceOf s a ≤ nonceOf (deliverTx s tx).1 a
+      cases hb : s.blk with
+      | none => rw [deliverTx_noblk tx hb]; exact Nat.le_refl _
+      | some b =>
+        rw [nonceOf_congr (s := (handleTx s true b.height tx).1) (s' := (deliverTx s tx).1)
+          (by rw [deliverTx_accts tx hb])]
+        exact (handleTx_mono hI.1 ho).1 a
+    | check tx =>
+      show nonceOf s a ≤ nonceOf (checkTx s tx).1 a
+      rw [nonceOf_congr (s := s) (s' := (checkTx s tx).1) (checkTx_accts s tx).1]; exact Nat.le_refl _
+    | end_ =>
+      show nonceOf s a ≤ nonceOf (endBlock s).1 a
+      unfold nonceOf
+      have := ((endBlock_keep s).2.2 hI.1).2 (ledgerKey a)
+      unfold nonceOpt at this; rw [this]; exact Nat.le_refl _
+    | commit =>
+      show nonceOf s a ≤ nonceOf (commit s).1 a
+      unfold commit
+      cases hb : s.blk with
+      | none => exact Nat.le_refl _
+      | some b => exact Nat.le_refl _
+    | restart =>
+      cases p <;> simp [phaseStep] at hph
+      show nonceOf s a ≤ nonceOf (restart s) a
+      have := hS (Or.inl rfl) (ledgerKey a)
+      unfold nonceOf restart; simp only [Led.reopen]
+      unfold nonceOpt at this; rw [this]; exact Nat.le_refl _
+
+
+/-- the oracle hypothesis along a whole history: stated at the state each contract execution starts from -/
+def RunOracleOK (s : St) : List Op → Prop
+  | [] => True
+  | op :: ops => OpOracleOK s op ∧ RunOracleOK (step s op).1 ops
+
+/-- the `i`-th operation of the history was answered "code 0" -/
+def DeliveredOK (s : St) (ops : List Op) (i : Nat) : Prop :=
+  ∃ o, ((run s ops).2[i]?).bind (·.tx) = some o ∧ o.code = 0
+
+theorem run_out_zero (s : St) (op : Op) (ops : List Op) : (run s (op :: ops)).2[0]? = some (step s op).2 := by
+  simp [run]
+
+theorem run_out_succ (s : St) (op : Op) (ops : List Op) (j : Nat) :
+    (run s (op :: ops)).2[j + 1]? = (run (step s op).1 ops).2[j]? := by
+  simp [run]
+
+/-- C04 `nonce_monotone` along a well-phased history -/
+theorem phaseRun_mono (ops : List Op) : ∀ (p p' : Phase) (s : St), phaseRun p ops = some p' → PInv p s →
+    RunOracleOK s ops → PInv p' (exec s ops) ∧ ∀ a, nonceOf s a ≤ nonceOf (exec s ops) a := by
+  induction ops with
+  | nil =>
+    intro p p' s hph hP _
+    simp [phaseRun] at hph; subst hph
+    exact ⟨hP, fun _ => Nat.le_refl _⟩
+  | cons op ops ih =>
+    intro p p' s hph hP hO
+    unfold phaseRun at hph
+    cases hps : phaseStep p op with
+    | none => rw [hps] at hph; simp at hph
+    | some p1 =>
+      rw [hps] at hph
+      simp only at hph
+      obtain ⟨hP1, hm1⟩ := PInv_step hps hP hO.1
+      obtain ⟨hP2, hm2⟩ := ih p1 p' _ hph hP1 hO.2
+      rw [exec_cons]
+      exact ⟨hP2, fun a => Nat.le_trans (hm1 a) (hm2 a)⟩
+
+/-- a delivery that succeeds at position `j` carries a nonce at least the sender's nonce at the start -/
+theorem success_nonce_ge (ops : List Op) : ∀ (p : Phase) (s : St) (j : Nat) (tx : TxIn),
+    (phaseRun p ops).isSome → PInv p s → RunOracleOK s ops → ops[j]? = some (.deliver tx) →
+    DeliveredOK s ops j → ∀ x, ledgerKey x = ledgerKey tx.from_ → nonceOf s x ≤ tx.nonce := by
+  induction ops with
+  | nil => intro p s j tx _ _ _ hj; simp at hj
+  | cons op ops ih =>
+    intro p s j tx hph hP hO hj hok x hx
+    unfold phaseRun at hph
+    cases hps : phaseStep p op with
+    | none => rw [hps] at hph; simp at hph
+    | some p1 =>
+      rw [hps] at hph
+      simp only at hph
+      obtain ⟨hP1, hm1⟩ := PInv_step hps hP hO.1
+      cases j with
+      | zero =>
+        simp at hj; subst hj
+        obtain ⟨o, ho, hc⟩ := hok
+        rw [run_out_zero] at ho
+        simp at ho
+        obtain ⟨b, hb, hc'⟩ := deliverTx_ok_inv (s := s) (tx := tx) ho hc
+        have := (deliver_success hP.1.1 hc' hO.1).1
+        rw [this]; unfold nonceOf; rw [hx]; exact Nat.le_refl _
+      | succ j =>
+        simp at hj
+        have hok' : DeliveredOK (step s op).1 ops j := by
+          obtain ⟨o, ho, hc⟩ := hok
+          rw [run_out_succ] at ho
+          exact ⟨o, ho, hc⟩
+        exact Nat.le_trans (hm1 x) (ih p1 _ j tx hph hP1 hO.2 hj hok' x hx)
+
+/-- C04 `at_most_once` from any state satisfying the phase invariant -/
+theorem at_most_once_from (ops : List Op) : ∀ (p : Phase) (s : St) (i j : Nat) (tx1 tx2 : TxIn),
+    (phaseRun p ops).isSome → PInv p s → RunOracleOK s ops → i < j →
+    ops[i]? = some (.deliver tx1) → ops[j]? = some (.deliver tx2) →
+    DeliveredOK s ops i → DeliveredOK s ops j →
+    ledgerKey tx1.from_ = ledgerKey tx2.from_ → tx1.nonce = tx2.nonce → False := by
+  induction ops with
+  | nil => intro p s i j tx1 tx2 _ _ _ _ hi; simp at hi
+  | cons op ops ih =>
+    intro p s i j tx1 tx2 hph hP hO hij hi hj ok1 ok2 hk hn
+    unfold phaseRun at hph
+    cases hps : phaseStep p op with
+    | none => rw [hps] at hph; simp at hph
+    | some p1 =>
+      rw [hps] at hph
+      simp only at hph
+      obtain ⟨hP1, hm1⟩ := PInv_step hps hP hO.1
+      cases j with
+      | zero => omega
+      | succ j =>
+        simp at hj
+        have ok2' : DeliveredOK (step s op).1 ops j := by
+          obtain ⟨o, ho, hc⟩ := ok2
+          rw [run_out_succ] at ho
+          exact ⟨o, ho, hc⟩
+        cases i with
+        | zero =>
+          simp at hi; subst hi
+          obtain ⟨o, ho, hc⟩ := ok1
+          rw [run_out_zero] at ho
+          simp at ho
+          obtain ⟨b, hb, hc'⟩ := deliverTx_ok_inv (s := s) (tx := tx1) ho hc
+          obtain ⟨e1, e2⟩ := deliver_success (h := b.height) hP.1.1 hc' hO.1
+          have hge := success_nonce_ge ops p1 _ j tx2 hph hP1 hO.2 hj ok2' tx1.from_ hk
+          have e3 : nonceOf (step s (.deliver tx1)).1 tx1.from_ = nonceOf (handleTx s true b.height tx1).1 tx1.from_ :=
+            nonceOf_congr (by show (deliverTx s tx1).1.accts.fin = _; rw [deliverTx_accts tx1 hb]) _
+          rw [e3, e2, ← e1] at hge
+          omega
+        | succ i =>
+          simp at hi
+          have ok1' : DeliveredOK (step s op).1 ops i := by
+            obtain ⟨o, ho, hc⟩ := ok1
+            rw [run_out_succ] at ho
+            exact ⟨o, ho, hc⟩
+          exact ih p1 _ i j tx1 tx2 hph hP1 hO.2 (by omega) hi hj ok1' ok2' hk hn
+
+
+/-! ### corollaries for the property file -/
+
+theorem phaseRun_append (a b : List Op) : ∀ p, phaseRun p (a ++ b) = (phaseRun p a).bind fun p1 => phaseRun p1 b := by
+  induction a with
+  | nil => intro p; simp [phaseRun]
+  | cons op a ih =>
+    intro p
+    simp only [List.cons_append, phaseRun]
+    cases phaseStep p op with
+    | none => simp
+    | some p1 => simp only; exact ih p1
+
+theorem RunOracleOK_append (a b : List Op) : ∀ s, RunOracleOK s (a ++ b) ↔ RunOracleOK s a ∧ RunOracleOK (exec s a) b := by
+  induction a with
+  | nil => intro s; simp [RunOracleOK, exec, run]
+  | cons op a ih =>
+    intro s
+    simp only [List.cons_append, RunOracleOK, exec_cons]
+    rw [ih]; exact and_assoc.symm
+
+/-- the phase invariant along any well-phased history (no oracle hypothesis needed) -/
+theorem phaseRun_PInv (ops : List Op) : ∀ (p p' : Phase) (s : St), phaseRun p ops = some p' → PInv p s →
+    PInv p' (exec s ops) := by
+  induction ops with
+  | nil => intro p p' s hph hP; simp [phaseRun] at hph; subst hph; exact hP
+  | cons op ops ih =>
+    intro p p' s hph hP
+    unfold phaseRun at hph
+    cases hps : phaseStep p op with
+    | none => rw [hps] at hph; simp at hph
+    | some p1 =>
+      rw [hps] at hph
+      rw [exec_cons]
+      exact ih p1 p' _ hph (PInv_next hps hP)
+
+theorem deliverTx_nonceOf {s : St} {b : BlockCtx} (tx : TxIn) (hb : s.blk = some b) (a : Hex) :
+    nonceOf (deliverTx s tx).1 a = nonceOf (handleTx s true b.height tx).1 a :=
+  nonceOf_congr (by rw [deliverTx_accts tx hb]) a
+
+theorem deliverTx_fail_inv {s : St} {tx : TxIn} (h : ∀ o, (deliverTx s tx).2.tx = some o → o.code ≠ 0) :
+    (deliverTx s tx).1 = s ∨ ∃ b, s.blk = some b ∧ (handleTx s true b.height tx).2.code ≠ 0 ∧
+      (deliverTx s tx).1 = (handleTx s true b.height tx).1 := by
+  cases hb : s.blk with
+  | none => exact Or.inl (deliverTx_noblk tx hb)
+  | some b =>
+    right
+    have hc : (handleTx s true b.height tx).2.code ≠ 0 := by
+      apply h
+      unfold deliverTx; rw [hb]; simp only
+      split
+      · rfl
+      · split <;> rfl
+    refine ⟨b, rfl, hc, ?_⟩
+    unfold deliverTx; rw [hb]; simp only
+    split
+    · rfl
+    · first | rfl | (rw [if_neg hc])
+
 end Rigo
